@@ -117,7 +117,10 @@ def _edit(w, op, by_name, res, fp):
         else:
             new_lines = lines[:idx] + lines[idx + 1:]
     elif kind == "change_started":
-        cands = [n for n in nodes if n.id in (started | executed) and n.kind == "Mark"]
+        # a line that ran in an earlier invocation of a macro counts as started (its flags are reset by the next call); a
+        # line of an Alarm body between two invocations does not: the next invocation may legitimately run an edited body
+        cands = [n for n in nodes if n.kind == "Mark" and (n.id in (started | executed) or (
+            n.id in w.ever_started and not any(a.kind == "Alarm" for a in n.ancestors())))]
         if not cands:
             fp.append("edit-none")
             return
@@ -179,7 +182,9 @@ def _edit(w, op, by_name, res, fp):
             # the definition disappears; calls of it that have not started are removed with it
             drop = set(ids) | {c.id for c in calls if c.id not in touched}
             new_lines = [x for x in lines if x[0] not in drop]
-        w.macro_edit = (mac.arg, expect)
+        # the definition line itself is "executed" once the macro is registered; only body lines count as started work
+        changed_ids = (set(ids) - {mac.id}) if kind == "macro_remove" else ({tgt.id} if kind == "macro_change" else set())
+        w.macro_edit = (mac.arg, expect, sorted(changed_ids & w.ever_started))
     elif kind == "same":
         new_lines = lines
     else:
